@@ -76,11 +76,13 @@ def attach_library_observers(disp, inst, graph="atj"):
     return obs
 
 
-def wide_subspaces(pairs=((1, 8), (0, 9), (4, 5)), histories=("jobmajor", "reverse", "roundrobin"), n_jobs=10, n_machines=4, **extra):
+def wide_subspaces(pairs=((1, 8), (0, 11), (4, 5)), histories=("jobmajor", "reverse", "roundrobin", "longfirst"), n_jobs=12, n_machines=4,
+                   **extra):
     """Wide instances beyond the small-shape bounds at low cost: `n_jobs` jobs (job ids >= 8 occur), jobs i and j of each
     pair have 3 operations, the others 1; operation p of job x runs on machine (x + p) % n_machines; TWO shared symbolic
     durations (long jobs' operations / short jobs' operations), so ties are everywhere and the paths are the orderings of
-    a few linear terms; instead of every interleaving three fixed histories are followed (drivers.choose_dispatch)."""
+    a few linear terms; instead of every interleaving four fixed histories are followed (drivers.choose_dispatch): job by
+    job, last ready job first, round robin, and the 3-operation jobs first (highest job id first)."""
     out = []
     for i, j in pairs:
         shape = [3 if x in (i, j) else 1 for x in range(n_jobs)]
@@ -91,4 +93,20 @@ def wide_subspaces(pairs=((1, 8), (0, 9), (4, 5)), histories=("jobmajor", "rever
                 share.append(0 if n == 3 else 1)
         for h in histories:
             out.append(dict(shape=shape, machines=machines, share=share, history=h, wide=True, **extra))
+    return out
+
+
+def tall_subspaces(shapes=((7, 3), (3, 7), (5, 5)), histories=("jobmajor", "reverse", "roundrobin"), **extra):
+    """Tall instances: few jobs with many operations (operation ids >= 8 inside one job, histories of 10 dispatches), on one
+    machine and on two alternating machines; one shared symbolic duration per job; three fixed histories."""
+    out = []
+    for shape in shapes:
+        for nm in (1, 2):
+            machines, share = [], []
+            for x, n in enumerate(shape):
+                for p_ in range(n):
+                    machines.append([(x + p_) % nm])
+                    share.append(x)
+            for h in histories:
+                out.append(dict(shape=list(shape), machines=machines, share=share, history=h, wide=True, **extra))
     return out
